@@ -386,7 +386,8 @@ func (s *Sch) Corrupt(r *hx.Rng, v any, goT string, depth int) (any, []any, bool
 	case "du":
 		if mv, ok := v.(map[string]any); ok && r.Chance(70) {
 			if i, ok := s.DiscMap[AtomKey(mv[s.Disc])]; ok {
-				return s.Members[i].Corrupt(r, v, goT, depth)
+				nv, loc, ok := s.Members[i].Corrupt(r, v, goT, depth)
+				return nv, s.discFault(loc), ok
 			}
 		}
 	case "inter":
@@ -484,6 +485,23 @@ func (s *Sch) through(r *hx.Rng, v any) *Sch {
 	return nil
 }
 
+// discFault: a fault planted in the DISCRIMINATOR of a discriminated union's value is a fault of the whole value — the
+// discriminator decides which option's schema every sibling field is read by (replacing "p" by another option's value
+// makes the union report the OTHER option's complaints about the siblings) — so its location is the union's value itself.
+func (s *Sch) discFault(loc []any) []any {
+	if s.Kind == "du" && len(loc) > 0 && loc[0] == any(s.Disc) {
+		return []any{}
+	}
+	return loc
+}
+
+func (s *Sch) discFaults(locs [][]any) [][]any {
+	for i := range locs {
+		locs[i] = s.discFault(locs[i])
+	}
+	return locs
+}
+
 func prefixed(el any, subs [][]any) [][]any {
 	out := make([][]any, len(subs))
 	for i, p := range subs {
@@ -496,7 +514,8 @@ func prefixed(el any, subs [][]any) [][]any {
 // below that child): the container then has to report issues of several members side by side.
 func (s *Sch) CorruptMany(r *hx.Rng, v any, goT string, k, depth int) (any, [][]any, bool) {
 	if t := s.through(r, v); t != nil {
-		return t.CorruptMany(r, v, goT, k, depth)
+		nv, locs, ok := t.CorruptMany(r, v, goT, k, depth)
+		return nv, s.discFaults(locs), ok
 	}
 	ch := s.Children(v)
 	if len(ch) == 0 {
@@ -552,7 +571,8 @@ func (s *Sch) CorruptMany(r *hx.Rng, v any, goT string, k, depth int) (any, [][]
 // elements of one of its members, 2 inside ONE element of a member (that element reports ≥ 2 issues).
 func (s *Sch) CorruptBelow(r *hx.Rng, v any, goT string, descend, k, depth int) (any, [][]any, bool) {
 	if t := s.through(r, v); t != nil {
-		return t.CorruptBelow(r, v, goT, descend, k, depth)
+		nv, locs, ok := t.CorruptBelow(r, v, goT, descend, k, depth)
+		return nv, s.discFaults(locs), ok
 	}
 	if descend > 0 {
 		var comp []Child
